@@ -238,6 +238,7 @@ func cmdCheck(args []string) int {
 	if o.tier == "" {
 		o.tier = "quick"
 	}
+	boundedTier = o.tier
 	if s := os.Getenv("VERIF_SEED"); s != "" {
 		o.seed, _ = strconv.Atoi(s)
 	}
